@@ -12,8 +12,10 @@ package main
 // (dynamic) on both operands before comparing what Interface() returned.
 
 import (
+	"fmt"
 	"go/token"
 	"go/types"
+	"os"
 	"strconv"
 	"strings"
 
@@ -453,10 +455,13 @@ func ruleNestingBound(p *Prog, a *Anchors, r *Report, rule string) {
 			r.OK(key, p.InstrPos(in), "passes its own nesting depth + 1")
 		} else if g := countsItself(p, ci.Common().StaticCallee(), targets, 0); kind == "execute" && g != nil {
 			r.OK(key, p.InstrPos(in), "%s counts the nested execution itself (a counter of the rendering stepped and compared with a constant, refusing with an error)", p.FuncName(g))
-		} else if kind == "load" && topLevel(f).Name() == "Execute" && topLevel(f).Signature.Recv() != nil {
+		} else if kind == "load" && topLevel(f).Signature.Recv() != nil && (topLevel(f).Name() == "Execute" || paramOfType(topLevel(f), types.NewPointer(a.ExecCtx)) != nil) {
 			// a template compiled at execution time (computed include) starts a new compile; the execution depth bounds the cycle
 			r.OK(key, p.InstrPos(in), "compiled at execution time: bounded by the execution depth of the call that follows")
 		} else {
+			if os.Getenv("PONGOCHECK_DEBUG") != "" {
+				fmt.Fprintf(os.Stderr, "NEST debug: %s exec=%v compile=%v recv=%v\n", p.FuncName(topLevel(f)), a.ExecReach()[topLevel(f)], a.CompileReach()[topLevel(f)], topLevel(f).Signature.Recv() != nil)
+			}
 			r.Bad(key, p.InstrPos(in), "a tag %ss another template through %s without passing on a nesting depth: a template that (directly or through others) refers to itself recurses until the stack is exhausted and the process dies", kind, p.FuncName(ci.Common().StaticCallee()))
 		}
 	})
@@ -586,8 +591,9 @@ func countsItself(p *Prog, f *ssa.Function, targets map[*ssa.Function]string, de
 // behindDepthStepOr: every path to c passes a depth step (as behindDepthStep) or an edge for which alt holds.
 func behindDepthStepOr(p *Prog, c ssa.Instruction, alt EdgePred) bool {
 	f := c.Parent()
+	step := depthStepEdge(p, f)
 	return Guarded(c, func(cond ssa.Value, pol bool) bool {
-		if alt(cond, pol) {
+		if alt(cond, pol) || step(cond, pol) {
 			return true
 		}
 		if _, ok := cond.(*ssa.BinOp); !ok {
